@@ -4,7 +4,8 @@
      Redis  slimta/redisstorage           hash per message + list `queue`
      Cloud  slimta/cloudstorage           CloudStorage over an abstract object
                                           store (+ optional message queue)
-   Code modelled AFTER the fixes d5 (any iterable of indexes), d6 (marks of a
+   Code modelled AFTER the fixes d32 (redis load decodes the keys), d5 (any
+   iterable of indexes), d6 (marks of a
    round are relative to the list get() returns; stored as a replayable
    deletion script) and c15-cloud-first-increment (cloud: first increment on an object whose
    attempts metadata is unset).
@@ -180,11 +181,6 @@ Definition rexec (s : rstate) (c : rcmd) : rstate * rans :=
 
 Definition rprog := prog rcmd rans res.
 
-(* the id string 'queue' that load() derives from the list key; the ids the
-   harness draws are never 0 *)
-Definition QUEUE_ID : N := 0.
-Definition rkey_id (k : rkey) : N := match k with KId id => id | KQueue => QUEUE_ID end.
-
 Fixpoint r_write (e : envelope) (ts : N) (cands : list N) : rprog :=
   match cands with
   | [] => Ret RNoId
@@ -196,16 +192,19 @@ Fixpoint r_write (e : envelope) (ts : N) (cands : list N) : rprog :=
         end)
   end.
 
-(* `if key != self.queue_key` compares the bytes key with a str and is always
-   true, so the list key gets the same HGET as the hashes *)
+(* RedisStorage.load after the d32 fix: keys come back as bytes and are decoded
+   before they are compared with the (str) queue key, so the announcement list
+   is skipped and the ids are the strings write() returned.  A hash without a
+   timestamp (never written by write()) gets time.time(). *)
 Fixpoint r_load_loop (ks : list rkey) (now : N) (acc : list (N * N)) : rprog :=
   match ks with
   | [] => Ret (RLoad (rev acc))
-  | k :: ks' =>
-      Do (QHgetTs k) (fun a =>
+  | KQueue :: ks' => r_load_loop ks' now acc            (* key == self.queue_key: skipped *)
+  | KId id :: ks' =>
+      Do (QHgetTs (KId id)) (fun a =>
         match a with
-        | XOptNum (Some t) => r_load_loop ks' now ((t, rkey_id k) :: acc)
-        | XOptNum None => r_load_loop ks' now ((now, rkey_id k) :: acc)   (* or time.time() *)
+        | XOptNum (Some t) => r_load_loop ks' now ((t, id) :: acc)
+        | XOptNum None => r_load_loop ks' now ((now, id) :: acc)
         | _ => Ret RWrongType
         end)
   end.
@@ -237,26 +236,41 @@ Definition redis_prog (o : op) : rprog :=
   | ORemove id => Do (QDel id) (fun _ => Ret RUnit)
   end.
 
-(* RedisStorage.wait(): one BLPOP *)
-Definition redis_wait : prog rcmd rans (option (N * N)) :=
-  Do QBlpop (fun a => match a with XPop o => Ret o | _ => Ret None end).
+(* RedisStorage.wait(): one BLPOP; returns [(timestamp, id)] (or [] on a timeout) *)
+Definition redis_wait : rprog :=
+  Do QBlpop (fun a => match a with XPop (Some x) => Ret (RLoad [x]) | _ => Ret (RLoad []) end).
 
-(* the queue's _wait_store greenlet consuming every announcement *)
-Definition redis_drain (s : rstate) : rstate := mkRedis (r_hashes s) [].
-
-(* In the op-sequence runs load() is issued after the announcements have been
-   consumed (otherwise HGET on the list key fails, see redis_prog (OLoad _)). *)
-Definition redis_step (s : rstate) (o : op) : rstate * res :=
-  match o with
-  | OLoad _ => run rexec (redis_prog o) (redis_drain s)
-  | _ => run rexec (redis_prog o) s
-  end.
+Definition redis_step (s : rstate) (o : op) : rstate * res := run rexec (redis_prog o) s.
 
 Fixpoint redis_run (s : rstate) (ops : list op) : rstate * list res :=
   match ops with
   | [] => (s, [])
   | o :: ops' => let (s1, x) := redis_step s o in
                  let (s2, xs) := redis_run s1 ops' in (s2, x :: xs)
+  end.
+
+(* operation sequences with wait() calls (the queue's _wait_store greenlet
+   consuming announcements) anywhere in between *)
+Inductive ritem := RIop (o : op) | RIwait.
+
+Definition ritem_step (s : rstate) (it : ritem) : rstate * res :=
+  match it with
+  | RIop o => redis_step s o
+  | RIwait => run rexec redis_wait s
+  end.
+
+Fixpoint redis_run_items (s : rstate) (its : list ritem) : rstate * list res :=
+  match its with
+  | [] => (s, [])
+  | it :: its' => let (s1, x) := ritem_step s it in
+                  let (s2, xs) := redis_run_items s1 its' in (s2, x :: xs)
+  end.
+
+Fixpoint ritem_ops (its : list ritem) : list op :=
+  match its with
+  | [] => []
+  | RIop o :: its' => o :: ritem_ops its'
+  | RIwait :: its' => ritem_ops its'
   end.
 
 Definition redis_view (s : rstate) (id : N) : option entry :=
